@@ -107,6 +107,28 @@ Proof. unfold ik, ikey, instance_of. cbn. rewrite iter_str_iname. apply int_of_d
 Lemma bp_instance d i c : bp_name (i_name (instance_of d i c)) = c_name c.
 Proof. cbn. apply bp_name_iname. Qed.
 
+(* the placeholder id (stage, blueprint name) of an instance is the id of its component *)
+Lemma id_instance d i c : (i_stage (instance_of d i c), bp_name (i_name (instance_of d i c))) = comp_id (d_stage d) c.
+Proof. rewrite bp_instance. reflexivity. Qed.
+
+Lemma id_eqb_eq a b : id_eqb a b = true <-> a = b.
+Proof.
+  destruct a as [s n], b as [s' n']. unfold id_eqb. cbn. rewrite andb_true_iff, N.eqb_eq, String.eqb_eq.
+  split; [intros [-> ->]; reflexivity|intros E; inversion E; auto].
+Qed.
+
+Lemma id_eqb_neq a b : a <> b -> id_eqb a b = false.
+Proof. intros H. apply not_true_iff_false. intros E. apply id_eqb_eq in E. contradiction. Qed.
+
+Lemma NoDup_map_inj {A B} (f : A -> B) (l : list A) x y : NoDup (map f l) -> In x l -> In y l -> f x = f y -> x = y.
+Proof.
+  induction l as [|a l IH]; cbn; intros ND Hx Hy E; [contradiction|].
+  inversion ND as [|? ? Ha ND']; subst.
+  destruct Hx as [<-|Hx], Hy as [<-|Hy]; auto.
+  - exfalso. apply Ha. rewrite E. apply in_map. exact Hy.
+  - exfalso. apply Ha. rewrite <- E. apply in_map. exact Hx.
+Qed.
+
 (* well-formed documents (what the generator of the correspondence produces; all decidable) *)
 Definition ref_ok (d : dowhile) (cs : N) (r : ref) : Prop :=
   match r with
@@ -116,8 +138,8 @@ Definition ref_ok (d : dowhile) (cs : N) (r : ref) : Prop :=
 
 Record wf_doc (d : dowhile) : Prop := {
   wf_nohash : forall c, In c (d_comps d) -> occurs "#" (c_name c) = false;
-  wf_names : NoDup (map c_name (d_comps d));
-  wf_cond : exists c, In c (d_comps d) /\ c_name c = l_prod (d_cond d);
+  wf_names : NoDup (map (comp_id (d_stage d)) (d_comps d));       (* (stage, name) pairwise distinct *)
+  wf_cond : exists c, In c (d_comps d) /\ comp_id (d_stage d) c = cond_id d;
   wf_lb_keys : NoDup (map fst (d_loopb d));
   wf_binds_outside : forall b v, lookup b (d_binds d) = Some v -> in_loop_ids d (a_stage v, a_prod v) = false;
   wf_refs : forall c r, In c (d_comps d) -> In r (c_refs c) -> ref_ok d (c_stage c) r
@@ -130,7 +152,7 @@ Hypothesis WF : wf_doc d.
 
 (* compute_dowhile_state finds iteration k when exactly the iterations 0..k exist *)
 Lemma cur_of_upto (w : wfst) k : w_doc w = d -> w_loop w = loop_upto d k ->
-  exists cc, In cc (d_comps d) /\ c_name cc = l_prod (d_cond d) /\
+  exists cc, In cc (d_comps d) /\ comp_id (d_stage d) cc = cond_id d /\
              cur_cond_inst w = Some (instance_of d (N.of_nat k) cc).
 Proof.
   intros Hd Hl. destruct (wf_cond d WF) as [cc [Hcc Hn]]. exists cc. split; [exact Hcc|]. split; [exact Hn|].
@@ -138,23 +160,19 @@ Proof.
   assert (Hin : In (instance_of d (N.of_nat k) cc) (cond_insts d (loop_upto d k))).
   { unfold cond_insts. apply filter_In. split.
     - apply in_loop_upto. exists (N.of_nat k), cc. split; [lia|]. split; [exact Hcc|reflexivity].
-    - rewrite bp_instance, Hn. apply String.eqb_refl. }
+    - rewrite id_instance, Hn. apply id_eqb_eq. reflexivity. }
   destruct (argmax_int_spec (cond_insts d (loop_upto d k))) as [m [H1 [H2 H3]]].
   { intros E. rewrite E in Hin. exact Hin. }
   rewrite H1. f_equal.
   unfold cond_insts in H2. apply filter_In in H2 as [H2 H2b].
   apply in_loop_upto in H2 as [i [c [Hi [Hc ->]]]].
-  rewrite bp_instance in H2b. apply String.eqb_eq in H2b.
+  rewrite id_instance in H2b. apply id_eqb_eq in H2b.
   specialize (H3 _ Hin). rewrite !ik_instance in H3.
   assert (i = N.of_nat k) by lia. subst i.
   assert (c = cc); [|subst; reflexivity].
-  (* names are pairwise distinct *)
-  clear - WF Hc Hcc H2b Hn. pose proof (wf_names d WF) as ND. rewrite <- Hn in H2b.
-  revert ND Hc Hcc. generalize (d_comps d). induction l as [|a l IH]; cbn; intros ND Hc Hcc; [contradiction|].
-  inversion ND as [|? ? Hna ND']; subst.
-  destruct Hc as [<-|Hc], Hcc as [<-|Hcc]; auto.
-  - exfalso. apply Hna. rewrite H2b. apply in_map. exact Hcc.
-  - exfalso. apply Hna. rewrite <- H2b. apply in_map. exact Hc.
+  (* (stage, name) pairs are pairwise distinct *)
+  apply (NoDup_map_inj (comp_id (d_stage d)) (d_comps d)); [apply (wf_names d WF)|exact Hc|exact Hcc|].
+  rewrite H2b, Hn. reflexivity.
 Qed.
 
 Lemma cur_iter_of_upto (w : wfst) k : w_doc w = d -> w_loop w = loop_upto d k -> cur_iter w = N.of_nat k.
@@ -326,8 +344,8 @@ Proof.
 Qed.
 
 Lemma filter_one (P : inst -> bool) i (l : list comp) c :
-  NoDup (map c_name l) -> In c l -> P (instance_of d i c) = true ->
-  (forall c', c_name c' <> c_name c -> P (instance_of d i c') = false) ->
+  NoDup (map (comp_id (d_stage d)) l) -> In c l -> P (instance_of d i c) = true ->
+  (forall c', comp_id (d_stage d) c' <> comp_id (d_stage d) c -> P (instance_of d i c') = false) ->
   filter P (map (instance_of d i) l) = [instance_of d i c].
 Proof.
   intros ND Hc Hp Hn. induction l as [|a l IH]; [contradiction|]. cbn.
@@ -349,7 +367,7 @@ Definition instances_of (c : comp) (k : nat) : list inst := map (fun i => instan
 
 Lemma filter_upto (P : inst -> bool) c k : In c (d_comps d) ->
   (forall i, P (instance_of d i c) = true) ->
-  (forall i c', c_name c' <> c_name c -> P (instance_of d i c') = false) ->
+  (forall i c', comp_id (d_stage d) c' <> comp_id (d_stage d) c -> P (instance_of d i c') = false) ->
   filter P (loop_upto d k) = instances_of c k.
 Proof.
   intros Hc Hp Hn. unfold loop_upto, instances_of. rewrite filter_flat_map, <- flat_map_single.
@@ -360,9 +378,8 @@ Lemma represents_upto c k : In c (d_comps d) ->
   represents (loop_upto d k) (comp_id (d_stage d) c) = instances_of c k.
 Proof.
   intros Hc. unfold represents. apply filter_upto; [exact Hc| |].
-  - intros i. unfold id_eqb, comp_id. cbn. rewrite bp_name_iname, N.eqb_refl, String.eqb_refl. reflexivity.
-  - intros i c' Hne. unfold id_eqb, comp_id. cbn. rewrite bp_name_iname.
-    apply andb_false_iff. right. apply String.eqb_neq. exact Hne.
+  - intros i. rewrite id_instance. apply id_eqb_eq. reflexivity.
+  - intros i c' Hne. rewrite id_instance. apply id_eqb_neq. exact Hne.
 Qed.
 
 Lemma argmax_instances c k : argmax KeyInt (instances_of c k) = Some (instance_of d (N.of_nat k) c).
@@ -385,8 +402,8 @@ Proof.
   intros Hc. unfold map_latest. rewrite instances_exact.
   rewrite (filter_upto _ c k Hc).
   - rewrite argmax_instances. reflexivity.
-  - intros i. cbn. rewrite bp_name_iname. apply String.eqb_refl.
-  - intros i c' Hne. cbn. rewrite bp_name_iname. apply String.eqb_neq. exact Hne.
+  - intros i. rewrite id_instance. apply id_eqb_eq. reflexivity.
+  - intros i c' Hne. rewrite id_instance. apply id_eqb_neq. exact Hne.
 Qed.
 
 (* sorting: insertion of a strictly increasing run is the identity, and the result does not depend on the
@@ -479,7 +496,7 @@ Proof.
   - eapply perm_trans; [apply isort_perm|exact P].
 Qed.
 
-Lemma state_upto k : exists cc, In cc (d_comps d) /\ c_name cc = l_prod (d_cond d) /\
+Lemma state_upto k : exists cc, In cc (d_comps d) /\ comp_id (d_stage d) cc = cond_id d /\
   cur_iter (unroll d out k) = N.of_nat k /\
   cur_cond (unroll d out k) =
     pr_ref (mk_aref (c_stage cc + d_stage d) (iname (N.of_nat k) (c_name cc)) (l_file (d_cond d)) "output").
@@ -553,3 +570,47 @@ Proof.
   - intros c r Hc Hr. cbn in Hc. repeat destruct Hc as [<-|Hc]; try contradiction;
       cbn in Hr; repeat destruct Hr as [<-|Hr]; try contradiction; cbn; try discriminate; split; reflexivity.
 Qed.
+
+(* ------------------------------------------------------------------ further concrete well-formed documents *)
+Ltac try_comps l :=
+  match l with
+  | ?c :: ?r => first [ exists c; split; [cbn; auto 8|reflexivity] | try_comps r ]
+  end.
+Ltac solve_wf :=
+  constructor;
+  [ intros c Hc; cbn in Hc; repeat destruct Hc as [<-|Hc]; try reflexivity; contradiction
+  | cbn; repeat constructor; cbn; intuition discriminate
+  | match goal with |- exists c, In c (d_comps ?d) /\ _ => let l := eval vm_compute in (d_comps d) in try_comps l end
+  | cbn; repeat constructor; cbn; intuition discriminate
+  | intros b v H; cbn in H;
+    repeat match type of H with (if ?e then _ else _) = _ => destruct e end; try discriminate; inversion H; reflexivity
+  | intros c r Hc Hr; cbn in Hc; repeat destruct Hc as [<-|Hc]; try contradiction;
+    cbn in Hr; repeat destruct Hr as [<-|Hr]; try contradiction; cbn; try discriminate; split; reflexivity ].
+
+(* two looped components with the same name in different stages (witness of F5b): stage0.x feeds stage1.x, the
+   loop carries stage1.x back into stage0.x, the condition is produced by stage1.x *)
+Definition ex_doc2 : dowhile :=
+  mk_dw 0
+    [mk_comp "x" 0 [RBind "b0" "" "output"];
+     mk_comp "x" 1 [RComp (Some 0) "x" "" "output"]]
+    [("b0", mk_aref 0 "src0" "" "output")]
+    [("b0", mk_lb (Some 1) "x" "" "output")]
+    (mk_lb (Some 1) "x" "f" "output").
+Definition ex_out2 : list ocomp :=
+  [mk_ocomp "src0" 0 []; mk_ocomp "rep" 2 [mk_aref 1 "x" "" "ref"; mk_aref 0 "x" "" "ref"]].
+
+Lemma ex_doc2_wf : wf_doc ex_doc2.
+Proof. solve_wf. Qed.
+
+(* a loop binding that aggregates over the iterations (:loopref): only in the model — the real code needs a second
+   DoWhile to bind iteration 0 to *)
+Definition ex_doc3 : dowhile :=
+  mk_dw 1
+    [mk_comp "prod" 0 []; mk_comp "agg" 0 [RBind "b0" "" "loopref"]; mk_comp "stop" 0 [RComp None "agg" "" "ref"]]
+    [("b0", mk_aref 0 "src0" "" "loopref")]
+    [("b0", mk_lb None "prod" "" "loopref")]
+    (mk_lb None "stop" "f" "output").
+Definition ex_out3 : list ocomp := [mk_ocomp "src0" 0 []].
+
+Lemma ex_doc3_wf : wf_doc ex_doc3.
+Proof. solve_wf. Qed.
